@@ -9,6 +9,7 @@ import (
 	"github.com/hashicorp/go-memdb"
 
 	"github.com/hashicorp/consul/agent/consul"
+	"github.com/hashicorp/consul/agent/consul/state"
 	"github.com/hashicorp/consul/agent/structs"
 	"github.com/hashicorp/consul/internal/verifmc/cmdlib"
 	"github.com/hashicorp/consul/internal/verifmc/e1"
@@ -62,6 +63,9 @@ func Run(c *ev.Ctx) {
 	if !quick {
 		phases[0].Depth, phases[1].Depth, phases[2].Depth = 3, 2, 2
 	}
+	// last phase: the cap on fine-grained watch channels is lowered to 1, so that every catalog / health query over the
+	// seed's handful of instances runs on its coarse fallback watches (whole-table channels)
+	phases = append(phases, phase{"catalog-coarse-watches", []string{"catalog"}, []string{"catalog+session", "mesh"}, []string{"catalog", "health"}, 1})
 	totalQ, totalRPC := 0, 0
 	var mu sync.Mutex
 	rpcErrors := map[string]int{}
@@ -220,6 +224,13 @@ func Run(c *ev.Ctx) {
 					t.Violate("C06:index-decreased:"+qclass(q.Name)+":op="+t.Op.Kind, fmt.Sprintf("%s: reported index decreased %d -> %d", q.Name, a, b))
 				}
 			}
+		}
+		if ph.Name == "catalog-coarse-watches" {
+			old := state.VerifSetWatchLimit(1)
+			st := e1.Run(cfg)
+			state.VerifSetWatchLimit(old)
+			st.Report(c, ph.Name+"_")
+			continue
 		}
 		st := e1.Run(cfg)
 		st.Report(c, ph.Name+"_")
